@@ -771,7 +771,12 @@ class Machine:
     # -- monitors ---------------------------------------------------------------
     def _link(self, pc, target):
         self.R[17] = float(pc + 1)
-        own = self.owner.get(self._next_instr(target)) if self.owner is not None else None
+        own = None
+        if self.owner is not None:
+            t = self._next_instr(target)
+            own = self.owner.get(t)
+            if self.meta["first"].get(own) != t:
+                own = None  # not a function entry (e.g. the body of a for-over-list loop)
         self.shadow.append((pc + 1, self.R[16], own))
 
     def _next_instr(self, pc):
@@ -809,6 +814,12 @@ class Machine:
             return
         if op == "j" and ins[1][0] == (1, 17):
             return  # return edge, judged by CALLS
+        if op == "j" and self.shadow and n2 == self.meta["first"].get(o2) and o2 != "":
+            # tail call: a plain jump to the entry of another function while a call
+            # is being served; the callee now returns on behalf of the caller
+            rpc, rsp, _ = self.shadow[-1]
+            self.shadow[-1] = (rpc, rsp, None)
+            return
         kind = "fall-through" if nxt == pc + 1 else "jump"
         self.events.append(("region-cross", kind, o1, o2, pc))
 
